@@ -28,16 +28,16 @@ TECHNIQUE = {
  "C15": "runtime monitoring: before/after comparison of read-only locations under a logging Target",
  "C16": "runtime monitoring: operation-log coverage check through a custom logging Target",
  "C17": "fault injection: exhaustive single (and pair) fault enumeration on a fault-injecting Target, differential against a skip-target twin",
- "C18": "runtime monitoring: law checking on the real Value path operations",
+ "C18": "runtime monitoring: law checking on the real Value path operations; Miri replay of recorded path operations (thorough)",
  "C19": "runtime monitoring: kind-membership oracle relating real Kind operations to real Value operations",
  "C20": "runtime monitoring: round-trip and parser-agreement monitor; exhaustive enumeration of short texts",
- "C21": "runtime monitoring: round-trip identity with an independent decoder (Python json) separating encoder from decoder faults",
- "C22": "runtime monitoring: round-trip identity per codec/option with independent Python decoders",
- "C23": "runtime monitoring: round-trip identity per algorithm with discovered key/IV sizes",
+ "C21": "runtime monitoring: round-trip identity with an independent decoder (Python json) separating encoder from decoder faults; valgrind memcheck replay of a workload sample (thorough)",
+ "C22": "runtime monitoring: round-trip identity per codec/option with independent Python decoders; valgrind memcheck replay of a workload sample (thorough)",
+ "C23": "runtime monitoring: round-trip identity per algorithm with discovered key/IV sizes; valgrind memcheck replay of a workload sample (thorough)",
  "C24": "runtime monitoring: round-trip identity with shrinking to a single pair / character class",
  "C25": "runtime monitoring: inverse-pair identities with independent Python cross-checks",
- "C26": "runtime monitoring: round-trip identity over schema-shaped values (schema parsed independently from the .proto sources)",
- "C27": "runtime monitoring: comparison with reference algorithms (hashlib/hmac, Rocksoft-model CRC, pure-Python xxhash/seahash validated on published vectors)",
+ "C26": "runtime monitoring: round-trip identity over schema-shaped values (schema parsed independently from the .proto sources); valgrind memcheck replay of a workload sample (thorough)",
+ "C27": "runtime monitoring: comparison with reference algorithms (hashlib/hmac, Rocksoft-model CRC, pure-Python xxhash/seahash validated on published vectors); valgrind memcheck replay of a workload sample (thorough)",
  "C28": "runtime monitoring: algebraic-law monitors over Unicode-heavy inputs",
  "C29": "runtime monitoring: exact-rational (fractions.Fraction) oracle",
  "C30": "runtime monitoring: parse-render-parse monitor over grammar-directed queries",
